@@ -85,7 +85,10 @@ class RealRays(BaseRays):
         if material is not None:
             k = material.k(self.w)
             alpha = 4 * np.pi * k / self.w
-            self.i *= np.exp(-alpha * t * 1e3)  # mm to microns
+            attenuation = np.exp(-alpha * t * 1e3)  # mm to microns
+            # a ray that does not reach the surface carries no energy there
+            # (0 * exp(nan) would turn a clipped ray into nan)
+            self.i = np.where(np.isfinite(t), self.i * attenuation, 0.0)
 
     def clip(self, condition):
         """Clip the rays based on a condition."""
